@@ -4,7 +4,13 @@
 //! Block production, leader-side of the consensus protocol.
 
 use std::sync::Arc;
-use std::time::{Duration, Instant};
+use std::time::Duration;
+#[cfg(not(feature = "verif-hooks"))]
+use std::time::Instant;
+
+// with the verification hooks the node's timers read tokio's clock, which a test harness can pause
+#[cfg(feature = "verif-hooks")]
+use tokio::time::Instant;
 
 use anyhow::Result;
 use either::Either;
